@@ -212,10 +212,14 @@ NAMING_SELFPREFIX = {
 # directory db-old next to the package db): in the sorted list of names they stand between the
 # package and its own sub modules
 NAMING_HYPHEN = {"r": "r", "a": "a", "b": "a-b", "c": "a+b", "d": "a b", "e": "a!", "p": "p", "q": "q"}
+# component names of very different lengths: a module on a shallow level has a longer dotted name than modules
+# two levels further down (r.cccccccccccc vs r.a.a.a)
+NAMING_LENGTHS = {"r": "r", "a": "a", "b": "bbbbbbbb", "c": "cccccccccccc", "d": "dd", "e": "eeeeee", "p": "p", "q": "qqqq"}
 NAMINGS = {
     "identity": {},
     "hyphen": NAMING_HYPHEN,
     "plain": NAMING_PLAIN,
     "adversarial": NAMING_ADVERSARIAL,
     "unicode": NAMING_UNICODE,
+    "lengths": NAMING_LENGTHS,
 }
